@@ -3,24 +3,31 @@ import numpy as np
 from common import Case, cq, cql, cqm, clist, cnat, copt, cbool, czl, cnatpairs, Ctx
 import latgen
 import tfimpl
-from props import c01, c04, c06, c08
+from props import c01, c04, c06, c07, c08
 
 ID = "C09"
 HMODULE = "H_C09"
 RULE = ("(a) weight constraints on multi-unit kernels whose columns differ by orders of magnitude - Lattice (strict "
         "and non-strict, all families, 0-3 iterations), PWLCalibration, Linear, Categorical: Coq runs the SINGLE-unit "
         "model on each column alone and compares with the corresponding column of the implementation's multi-unit "
-        "result; the implementation is also compared with itself (column alone, permuted units). (b) layer outputs: "
+        "result; the implementation is also compared with itself (column alone, permuted units). "
+        "KroneckerFactoredLattice (2-3 units of different magnitudes, histories of kernel.constraint / "
+        "scale.constraint / finalize_constraints on the real multi-unit layer): Coq runs the ONE-unit KFL model on "
+        "unit u's slice kernel[:, :, u*dims:(u+1)*dims, :], scale row and bias and compares kernel, scale and the "
+        "outputs with unit u of the multi-unit implementation; the implementation is also compared with a real "
+        "one-unit layer per unit and with the unit-reversed layer. (b) layer outputs: "
         "perturbing unit v's parameters/inputs must not change unit u's output (Lattice, PWL, Categorical, Linear, "
         "KFL). (c) batch independence: layer(x)[i] vs layer(x[i:i+1]) and under row permutation for every layer "
         "kind, CDF, pwl_calibration_fn, cdf_fn, RTL, ParallelCombination and two premade models. (b), (c) are "
         "differential testing on the implementation. Non-trivial = units > 1 and the constraint moved the kernel / "
         "the batch has > 1 distinct rows.")
 TRUSTED = ["models: the single-unit instances of Model/LatticeDykstra.v + Model/LatticeFinalize.v, "
-           "Model/PWLProject.v, Model/LinearProject.v; per-column theorems: C06_per_unit, C06_categorical_per_unit, "
+           "Model/PWLProject.v, Model/LinearProject.v, Model/KFL.v (+ Model/KFLUnits.v slice_unit); per-column theorems: C06_per_unit, C06_categorical_per_unit, "
            "C04_per_unit, C09_* (Props/C09.v)",
            "batch handling inside TensorFlow kernels is runtime behaviour, observed not modelled"]
-LIMITS = ["batch independence and output-unit independence are decided by differential testing on the implementation",
+LIMITS = ["batch independence is decided by differential testing on the implementation (the models have no batch "
+          "axis: C09_kfl_batch_rows is a statement about the model's form); output-unit independence is proved on "
+          "the evaluation models (C09_*_output_unit_local) and tested on the implementation",
           "float rounding outside the model (1e-9 float64, 1e-5 float32 paths)"]
 SHARD = 40
 
@@ -52,6 +59,8 @@ def gen_descs(ctx):
       out.append(dict(d, kind="cat9"))
     elif d["kind"] == "linear":
       out.append(dict(d, kind="lin9"))
+  for _ in range(ctx.n(40, 600)):
+    out.append(_gen_kfl9(rng))
   for k in ["lattice_hyper", "lattice_simplex", "pwl", "categorical", "linear", "kfl", "cdf", "pwl_fn", "cdf_fn",
             "rtl", "parallel", "premade_lattice", "premade_linear"]:
     for _ in range(ctx.n(2, 12)):
@@ -64,6 +73,102 @@ def gen_descs(ctx):
 
 def _mat(t):
   return [[float(v) for v in row] for row in np.asarray(t)]
+
+
+# --------------------------------------------------------------------------
+# KroneckerFactoredLattice: units of different magnitudes through the real constraints
+def _gen_kfl9(rng):
+  L = rng.choice([2, 3, 3, 4])
+  dims = rng.choice([1, 2, 2, 3])
+  units = rng.choice([2, 3])
+  terms = rng.choice([1, 2, 3])
+  marg, ms = c07._monos(rng, dims)
+  bmode = rng.choice(["none", "min", "max", "both", "both"])
+  a = tfimpl.dy(rng, -4, 4)
+  omin = a if bmode in ("min", "both") else None
+  omax = (a + rng.choice([0.5, 1.0, 2.0, 5.0])) if bmode in ("max", "both") else None
+  omin, omax = tfimpl.zero_bound(rng, omin, omax)
+  clip = rng.random() < 0.6
+  kclass = rng.choice(["random", "random", "negative", "ties", "sorted", "power", "small"])
+  sclass = rng.choice(["random", "random", "zeros", "pos", "neg", "large"])
+  k0 = np.array(c07._kernel(rng, kclass, L, units, dims, terms))
+  # unit 1 is 8 x larger, unit 2 is 8 x smaller (and of the other sign): a reduction over the
+  # wrong axis (max-product, mean over terms, cummax across units) shows
+  mags = [1.0, 8.0, -0.125]
+  for u in range(units):
+    k0[:, u * dims:(u + 1) * dims, :] *= mags[u]
+  s0 = c07._scale(rng, sclass, units, terms, omin, omax)
+  b0 = [tfimpl.dy(rng, -4, 4) for _ in range(units)] if bmode == "none" else None
+  steps = [[s] for s in rng.choice(c07.STEP_SEQS)]
+  pts, _ = c07._points(rng, L, units, dims, ms, clip)
+  return dict(kind="kfl9", L=L, dims=dims, units=units, terms=terms, monos=marg, omin=omin, omax=omax, clip=clip,
+              k0=k0.tolist(), s0=s0, b0=b0, steps=steps, pts=pts[:10], kclass=kclass, sclass=sclass)
+
+
+def _run_kfl(tf, tfl, d, units, k0, s0, b0, pts):
+  """Builds a real layer with `units` units, assigns, applies d['steps'], returns (kernel, scale, bias0, outs)."""
+  layer = tfl.layers.KroneckerFactoredLattice(
+      lattice_sizes=d["L"], units=units, num_terms=d["terms"], monotonicities=c07._monos_arg(d["monos"]),
+      output_min=d["omin"], output_max=d["omax"], clip_inputs=d["clip"], dtype="float64")
+  x, _ = c07._inputs(tf, pts, units, d["dims"], "tensor")
+  layer(x)
+  layer.kernel.assign(np.array(k0, dtype=np.float64)[None])
+  layer.scale.assign(np.array(s0, dtype=np.float64))
+  if b0 is not None:
+    layer.bias.assign(np.array(b0, dtype=np.float64).reshape(layer.bias.shape))
+  bias = [float(v) for v in np.asarray(layer.bias.numpy()).reshape(-1)]
+  for s in d["steps"]:
+    if s[0] == "K":
+      if layer.kernel.constraint is not None:
+        layer.kernel.assign(layer.kernel.constraint(layer.kernel))
+    elif s[0] == "S":
+      if layer.scale.constraint is not None:
+        layer.scale.assign(layer.scale.constraint(layer.scale))
+    else:
+      layer.finalize_constraints()
+  return (layer.kernel.numpy()[0], layer.scale.numpy(), bias, np.asarray(c07._outs(layer(x), len(pts), units)))
+
+
+def _eval_kfl9(tf, tfl, d):
+  L, units, dims, terms = d["L"], d["units"], d["dims"], d["terms"]
+  ms = d["monos"]["ms"] if d["monos"] is not None else None
+  k0 = np.array(d["k0"], dtype=np.float64)
+  pts = d["pts"]
+  k1, s1, bias, outs = _run_kfl(tf, tfl, d, units, k0, d["s0"], d["b0"], pts)
+  fails = []
+  scale = max(1.0, float(np.abs(k0).max()))
+  tol = 1e-9
+  # the implementation against itself: a real one-unit layer per unit, and the unit-reversed layer
+  for u in range(units):
+    ku, su, _, ou = _run_kfl(tf, tfl, d, 1, k0[:, u * dims:(u + 1) * dims, :], [d["s0"][u]],
+                             [d["b0"][u]] if d["b0"] is not None else None, [[p[u]] for p in pts])
+    if np.abs(ku - k1[:, u * dims:(u + 1) * dims, :]).max() > tol * scale:
+      fails.append("KFL: kernel of unit %d after the constraints differs from the one-unit layer's by %r" % (
+          u, np.abs(ku - k1[:, u * dims:(u + 1) * dims, :]).max()))
+    if np.abs(su[0] - s1[u]).max() > tol * max(1.0, np.abs(s1).max()):
+      fails.append("KFL: scale of unit %d after the constraints differs from the one-unit layer's" % u)
+    if np.abs(ou[:, 0] - outs[:, u]).max() > tol * max(1.0, np.abs(outs).max()):
+      fails.append("KFL: output of unit %d differs from the one-unit layer's by %r" % (u, np.abs(ou[:, 0] - outs[:, u]).max()))
+  perm = list(range(units))[::-1]
+  kp = np.concatenate([k0[:, v * dims:(v + 1) * dims, :] for v in perm], axis=1)
+  k1p, s1p, _, outsp = _run_kfl(tf, tfl, d, units, kp, [d["s0"][v] for v in perm],
+                                [d["b0"][v] for v in perm] if d["b0"] is not None else None,
+                                [[p[v] for v in perm] for p in pts])
+  k1_perm = np.concatenate([k1[:, v * dims:(v + 1) * dims, :] for v in perm], axis=1)
+  if (np.abs(k1p - k1_perm).max() > tol * scale or np.abs(s1p - s1[perm]).max() > tol * max(1.0, np.abs(s1).max())
+      or np.abs(outsp - outs[:, perm]).max() > tol * max(1.0, np.abs(outs).max())):
+    fails.append("KFL: permuting units does not permute the constrained parameters / outputs")
+  names = {"K": "KFL.StepK", "S": "KFL.StepS", "F": "KFL.StepF"}
+  cmonos = "None" if ms is None else "(Some %s)" % clist([cbool(bool(m)) for m in ms])
+  cfg = "(KFL.mkCfg %s %s %s %s %s)" % (cnat(L), cmonos, copt(d["omin"]), copt(d["omax"]), cbool(d["clip"]))
+  ck = lambda k: clist([cqm(m) for m in np.asarray(k).tolist()])
+  coq = "CKfl %s %s %s %s %s %s %s %s %s %s %s %s" % (
+      cfg, cnat(units), cnat(dims), cnat(terms), ck(k0), cqm(d["s0"]), cql(bias),
+      clist([names[s[0]] for s in d["steps"]]), ck(k1), cqm(_mat(s1)), clist([cqm(p) for p in pts]), cqm(_mat(outs)))
+  changed = bool(np.abs(k1 - k0).max() > 1e-12 or np.abs(s1 - np.array(d["s0"])).max() > 1e-12)
+  return Case(d, coq=coq, pred_fail="; ".join(fails) or None, nontrivial=changed,
+              klass="kfl_%s" % "".join(s[0] for s in d["steps"]),
+              info={"impl_kernel": np.asarray(k1).tolist(), "impl_scale": _mat(s1), "impl_outputs": _mat(outs)})
 
 
 def _impl_self_checks(con, W, out, scale, what):
@@ -266,6 +371,8 @@ def eval_cases(ctx, descs):
     elif kind == "outunit":
       fails = _outunit_case(tf, tfl, d)
       cases.append(Case(d, coq=None, pred_fail="; ".join(fails) or None, klass="outunit_" + d["layer"]))
+    elif kind == "kfl9":
+      cases.append(_eval_kfl9(tf, tfl, d))
     elif kind == "lat":
       cfg = d["cfg"]
       W = np.array(d["w"], dtype=np.float64)
